@@ -500,6 +500,47 @@ def replay_cache(hist):
     return out
 
 
+PYTEXT = {"i0": "0", "i1": "1", "im3": "-3", "f0": "0.0", "fn0": "-0.0", "f1": "1.0", "f25": "2.5", "bT": "True", "bF": "False"}
+
+
+def replay_frontends(hist):
+    """The same promotion history through the CONVERTER and EAGER mode: one script function whose k-th statement
+    promotes the k-th literal beside a FLOAT / INT64 / BOOL operand chosen so that the result IS the literal's tensor
+    (-0.0 + c, 0 + c, True and c).  -> {"static": [tokens per step] | error text, "eager": ...}"""
+    from . import scriptgen
+
+    steps = [(vt, dt) for vt, dt in hist if vt in PYTEXT]
+    if not steps:
+        return {"steps": [], "static": [], "eager": []}
+    lines = ["from onnxscript import script, FLOAT, INT64, BOOL", "from onnxscript import opset18 as op", "",
+             "@script(default_opset=op)", "def f(xf: FLOAT[1], xi: INT64[1], xb: BOOL[1]):"]
+    for k, (vt, dt) in enumerate(steps):
+        if dt == "BOOL":
+            lines.append(f"    t{k} = op.And(xb, {PYTEXT[vt]})")
+        else:
+            lines.append(f"    t{k} = op.Add({'xf' if dt == 'FLOAT' else 'xi'}, {PYTEXT[vt]})")
+    lines.append("    return " + ", ".join(f"t{k}" for k in range(len(steps))))
+    out = {"steps": [list(x) for x in steps]}
+    feeds = {"xf": np.array([-0.0], np.float32), "xi": np.array([0], np.int64), "xb": np.array([True])}
+    try:
+        mod = scriptgen.load_source("\n".join(lines) + "\n", "c12h")
+    except Exception as ex:
+        out["static"] = out["eager"] = f"script() raised {type(ex).__name__}: {str(ex)[:200]}"
+        return out
+    try:
+        got = core.ort_session(mod.f.to_model_proto()).run(None, feeds)
+        out["static"] = [obs(g)[2][0] for g in got]
+    except Exception as ex:
+        out["static"] = f"{type(ex).__name__}: {str(ex)[:200]}"
+    try:
+        got = mod.f(feeds["xf"], feeds["xi"], feeds["xb"])
+        got = list(got) if isinstance(got, (tuple, list)) else [got]
+        out["eager"] = [obs(np.asarray(getattr(g, "value", g)))[2][0] for g in got]
+    except Exception as ex:
+        out["eager"] = f"{type(ex).__name__}: {str(ex)[:200]}"
+    return out
+
+
 def part2(ctx: core.Ctx):
     cfg = "ConstCache_quick.cfg" if ctx.quick else "ConstCache_thorough.cfg"
     res = core.run_tlc("ConstCache", cfg, dump=True, timeout=1500)
@@ -547,6 +588,28 @@ def part2(ctx: core.Ctx):
                            finding=finding)
         ctx.sample({"history": s["hist"], "impl": real}, limit=6)
     ctx.set("cache_model_mismatches", mism)
+    # the same histories through the converter and eager mode: the clause "distinct literals never share a tensor with
+    # a different value" is about every front end (the converter may reuse Constant nodes, eager mode may cache tensors)
+    sub = hists if len(hists) <= 1500 else rng.sample(hists, 1500)
+    fe = core.pmap(replay_frontends, sub)
+    want_of = {}
+    for s_ in full:
+        for k, h_ in enumerate(s_["hist"]):
+            want_of[(tuple(h_))] = list(s_["outcome"][k]["want"]) if s_["outcome"][k]["res"] != "raise" else want_of.get(tuple(h_))
+    for hist, r in zip(sub, fe):
+        ctx.add("evaluations")
+        for mode in ("static", "eager"):
+            got = r[mode]
+            if isinstance(got, str):
+                ctx.report({"history": r["steps"], "mode": mode, "error": got}, f"{mode} front end fails on the literal history {r['steps']}: {got}")
+                continue
+            for k, (st, g) in enumerate(zip(r["steps"], got)):
+                want = want_of.get(tuple(st))
+                if want is not None and list(g) != list(want):
+                    ctx.report({"history": r["steps"], "mode": mode, "step": k, "got": list(g), "want": want},
+                               f"{mode} front end: literal {st} fed as {list(g)}, expected {want}, after the literals {r['steps'][:k]} in the same function")
+                    break
+    ctx.set("frontend_histories", len(sub))
     return len(full)
 
 
